@@ -56,6 +56,14 @@ def systematic_streams(ctx):
                 pad = bytes(r.getrandbits(8) for _ in range(r.choice([0, 1, 6])))
                 out.append((["hdr-%s-len%d" % ("valid" if good else "badcrc", ln), "cmd"],
                             streams.header_only(ln, fl, good=good) + pad + streams.command_frame(r)))
+    # a frame that is rejected only once it is complete (bad body checksum, too short for a command header, wrong flags
+    # for its length), longer than the well-formed frame(s) behind it: whatever the receiver learnt from the rejected
+    # frame's header must not be applied to the next one (byte-wise and single-cut chunkings make the header arrive early)
+    for n in (20, 40, 120):
+        for flags in (0xC0, 0x80, 0x00):
+            bad = streams.raw_frame(flags | (r.randrange(4) << 2), bytes(r.getrandbits(8) for _ in range(n)), good_crc16=False)
+            out.append((["bad-crc16-long", "cmd", "ack"], bad + streams.command_frame(r) + streams.ack(r.randrange(4))))
+            out.append((["bad-crc16-long", "ack", "cmd"], bad + streams.ack(r.randrange(4)) + streams.command_frame(r)))
     # frames at the very top of the 16-bit length field (length + 2 no longer fits 16 bits), between two short ones
     for ln in ([0xFFFF, 0xFFFE] if not ctx.thorough() else [0xFFFF, 0xFFFE, 0xFFFD, 0x8000]):
         for fl in ([0x84] if not ctx.thorough() else [0x84, 0x08, 0xC4]):
